@@ -360,7 +360,7 @@ def regf():
     return reg
 
 
-def tasks():
+def _f_tasks():
     return [ContractTask(c, regf) for c in CONTRACTS]
 
 
@@ -375,3 +375,14 @@ ASSUMPTIONS = [
     "EventualQueue._turn is entered with its timer set (it is only ever called by that timer)",
     "values passed to fire()/got_*() are not the private NoResult sentinel",
 ]
+
+
+
+def select_m(name):
+    return name.startswith("post:C18:")
+
+
+def tasks():
+    """function-level tasks plus the machine-level obligations of this property (mailbox-cluster engine)"""
+    from pyvc.mrun import ClusterTask
+    return _f_tasks() + [ClusterTask("mailbox-cluster", "props.mailbox", "engine", select_m, "mailbox_history:search")]
